@@ -137,16 +137,22 @@ Definition asn_parse_unsigned_int (b : buf) (p dl : Z) : res (Z * Z * Z * Z) :=
   do v <- int_bytes b p' (Z.to_nat alen) (if Z.land b0 128 =? 0 then 0 else -1);
   Ok (p' + alen, dl', t, u32 v).
 
+(* memcpy(dst, src, n): the source range must lie inside the object (a contiguous range does iff its ends do) *)
+Definition rd_range (b : buf) (p n : Z) : res unit :=
+  if n <=? 0 then Ok tt else do _ <- rd b p; do _ <- rd b (p + n - 1); Ok tt.
+
 (* asn_parse_string(data, &datalength, &type, string, &strlength): [cap] = *strlength on entry, [dcap] = size of the
-   destination array. Result (next, datalength, type, bytes). *)
-Definition asn_parse_string (b : buf) (p dl cap dcap : Z) : res (Z * Z * Z * list Z) :=
+   destination array, [keep] = whether the model materialises the copied bytes (only the community is looked at
+   later). Result (next, datalength, type, length, bytes). *)
+Definition asn_parse_string (keep : bool) (b : buf) (p dl cap dcap : Z) : res (Z * Z * Z * Z * list Z) :=
   do t <- rd b p;
   do '(p', alen) <- asn_parse_length b (p + 1);
   if dl <? alen + (p' - p) then Fail else
   if u32 cap <? alen then Fail else                             (* asn_length > *strlength (unsigned) *)
   do _ <- (if alen =? 0 then Ok tt else idx_ok dcap (alen - 1)); (* memcpy(string, bufp, asn_length): last byte written *)
-  do s <- rd_bytes b p' (Z.to_nat alen);                        (*                                 bytes read *)
-  Ok (p' + alen, dl - (alen + (p' - p)), t, s).
+  do _ <- rd_range b p' alen;                                   (*                                 bytes read *)
+  do s <- (if keep then rd_bytes b p' (Z.to_nat alen) else Ok []);
+  Ok (p' + alen, dl - (alen + (p' - p)), t, alen, s).
 
 (* one sub-identifier: do { if (length-- <= 0) fail; sub = (sub << 7) | ( *bufp & ~ASN_BIT8); } while ( *bufp++ & ASN_BIT8); *)
 Fixpoint objid_sub (b : buf) (fuel : nat) (p length sub : Z) : res (Z * Z * Z) :=
@@ -226,8 +232,8 @@ Definition varbind_one (b : buf) (p allvarlen : Z) : res (Z * Z * snmp_var) :=
   else if is_in vt [asn_octet_str; smi_ipaddress; smi_opaque] then
     let val_len := if 0 <=? thisvarlen then thisvarlen else 0 in
     (* xmalloc(val_len + 1); asn_parse_string(.., Var->val.string, &Var->val_len); string[val_len] = 0 *)
-    match asn_parse_string b dataptr thisvarlen val_len (val_len + 1) with
-    | Ok (p, _, t, s) => do _ <- idx_ok (val_len + 1) (lenZ s); Ok (p, allvarlen, mkvar t name_len (lenZ s))
+    match asn_parse_string false b dataptr thisvarlen val_len (val_len + 1) with
+    | Ok (p, _, t, n, _) => do _ <- idx_ok (val_len + 1) n; Ok (p, allvarlen, mkvar t name_len n)
     | Fail => do _ <- idx_ok (val_len + 1) val_len; Fail
     | OOB => OOB
     | NoFuel => NoFuel
@@ -259,9 +265,9 @@ Definition snmp_msg_decode (b : buf) (len : Z) : res snmp_msg :=
   do '(p, dl, t) <- asn_parse_header b 0 len;
   if negb (t =? asn_seq_con) then Fail else
   do '(p, dl, _, ver) <- asn_parse_int b p dl;
-  do '(p, dl, _, comm) <- asn_parse_string b p dl snmp_comm_len0 snmp_comm_cap;
-  if lenZ comm =? snmp_comm_len0 then Fail else               (* cannot zero-terminate *)
-  do _ <- idx_ok snmp_comm_cap (lenZ comm);                    (* Community[ *CommLenP ] = '\0'; *)
+  do '(p, dl, _, clen, comm) <- asn_parse_string true b p dl snmp_comm_len0 snmp_comm_cap;
+  if clen =? snmp_comm_len0 then Fail else                     (* cannot zero-terminate *)
+  do _ <- idx_ok snmp_comm_cap clen;                           (* Community[ *CommLenP ] = '\0'; *)
   if is_in 0 comm then Fail else                                (* memchr(Community, 0, len) *)
   do '(p, dl, cmd, reqid, es, ei) <- snmp_pdu_decode b p dl;
   do '(_, vars) <- snmp_var_decode b p dl;
